@@ -384,6 +384,15 @@ def deImageV (ext : Ext) (j : JV) : R (Nat × Nat) :=
   | .panic => .error .panic
   | .pending => .error .panic   -- excluded for sufficient schedules
 
+/-- `ImageAsciiView::layout`: `height / 2 + height % 2` rows for an image `height` pixels high, the `+` being a
+    `usize` addition in a build with overflow checks (`panic` on overflow).  This is arithmetic of the view's
+    *layout*, on a number taken from the document; C10's model takes the size of such a leaf (`V.fixed`) as
+    given, so it is computed (checked) here, where the leaf is built. -/
+def asciiRows (height : Nat) : R Nat :=
+  match add? (height / 2) (height % 2) with
+  | some rows => .ok rows
+  | none => .error .panic
+
 /-! ## text -/
 
 structure TState where
@@ -496,7 +505,7 @@ def viewStep (ext : Ext) (recur : JV → R V) (value : JV) : R V :=
     else if ty = "image".toList then
       andThen (deImageV ext value) fun p => .ok (.image p.1 p.2)
     else if ty = "image_ascii".toList then
-      andThen (deImageV ext value) fun p => .ok (.fixed 0 (p.1 / 2 + p.1 % 2) p.2)
+      andThen (deImageV ext value) fun p => andThen (asciiRows p.1) fun rows => .ok (.fixed 0 rows p.2)
     else if ty = "color".toList then
       .error .invalid                  -- a string deserialiser handed the (object) value
     else if ty = "tag".toList then viewTag recur value
